@@ -5,7 +5,7 @@ Every mutant = one small textual change in a function body of /repo/src. A mutan
 run through `./check ALL --repo <scratch>`; survivors (exit 0) are candidates for weak contracts."""
 import os, re, sys, subprocess, shutil, json, concurrent.futures, itertools, hashlib
 
-FILES = ["internal.rs", "lib.rs", "future.rs", "mutex.rs", "signal.rs", "backoff.rs"]
+FILES = ["internal.rs", "lib.rs", "future.rs", "mutex.rs", "signal.rs", "backoff.rs", "pointer.rs"]
 OPS = [
     (r" == ", " != "), (r" != ", " == "), (r" < ", " <= "), (r" > ", " >= "), (r" <= ", " < "), (r" >= ", " > "),
     (r" && ", " || "), (r" \|\| ", " && "), (r"\+= 1", "-= 1"), (r"-= 1", "+= 1"),
@@ -23,7 +23,7 @@ OPS = [
     (r"Ordering::Acquire", "Ordering::Relaxed"), (r"Ordering::Release", "Ordering::Relaxed"),
     (r"== UNLOCKED", "== TERMINATED"), (r"v < LOCKED", "v <= LOCKED"),
     (r"Poll::Pending$", "Poll::Ready(Ok(()))"),
-    (r"\.is_none\(\)", ".is_some()"), (r"usize::MAX", "0"),
+    (r"\.is_none\(\)", ".is_some()"), (r"usize::MAX", "0"), (r"> 0", ">= 0"), (r"== 0", "!= 0"), (r"forget\(d\);", ""),
 ]
 DELETABLE = re.compile(r"^\s*(drop\(internal\);|internal\.terminate_signals\(\);|internal\.queue\.clear\(\);|this\.state = [^;]+;|self\.wait_list\.clear\(\);|"
                        r"unsafe \{ data\.assume_init_drop\(\) \}|this\.sig\.register_waker\(cx\.waker\(\)\);|fence\(Ordering::Acquire\);|"
@@ -77,6 +77,8 @@ def run(m, wid):
         env2["VERIF_DEV_UNITS"] = "u1"; env2["VERIF_DEV_NOKANI"] = "1"
     elif f in ("mutex.rs", "backoff.rs"):
         env2["VERIF_DEV_UNITS"] = "u2"; env2["VERIF_DEV_NOKANI"] = "1"
+    elif f == "pointer.rs":
+        env2["VERIF_DEV_UNITS"] = "glue"
     else:
         env2["VERIF_DEV_UNITS"] = "u2"
     r = subprocess.run(["/verif/check", "ALL", "--repo", d], stdout=subprocess.PIPE, stderr=subprocess.STDOUT, text=True, env=env2)
